@@ -13,7 +13,7 @@ from mc.world import Case
 ID = 'C01'
 LEVEL = 'exploration'
 
-OPCODES = [(1, 1), (5, 3), (0xA, 4), (0x15, 5), (0xC3, 8), (0xABC, 12), (0xBEEF, 16)]
+OPCODES = [(1, 1), (5, 3), (0xA, 4), (0, 4), (0x15, 5), (0xC3, 8), (0xABC, 12), (0xBEEF, 16)]       # an opcode of value 0 is an opcode
 SUFFIXES = [None, (1, 1), (5, 3), (0x3C, 8), (0x1A5, 9), (0xBEE5, 16)]      # suffixes wider than a byte have a byte order
 ARG_WIDTHS = [1, 3, 4, 7, 8, 9, 12, 15, 16, 17, 24, 32, 63, 64]
 CODE_SIZES = [1, 2, 3, 4, 7, 8]
@@ -32,7 +32,7 @@ def frames(tier, part):
             ops = OPCODES
             sufs = [None, SUFFIXES[2], SUFFIXES[4]] if q else SUFFIXES
         else:
-            ops = [OPCODES[0], OPCODES[2], OPCODES[5]] if q else OPCODES
+            ops = [OPCODES[0], OPCODES[2], OPCODES[6]] if q else OPCODES
             sufs = [None, SUFFIXES[1]] if q else SUFFIXES
         for op in ops:
             for oe in (None, other(de)):
@@ -54,6 +54,8 @@ def catalogue_full():
             cat.append(G.shape_register('a', code, pos))
             cat.append(G.shape_numeric(8, True, None, code=code, pos=pos, nvals=3))
             cat.append(G.shape_numeric_bytecode(cs, pos))
+            cat.append(G.shape_register('b', (0, cs), pos))                  # a code of value 0 still occupies its bits
+            cat.append(G.shape_numeric(8, True, None, code=(0, cs), pos=pos, nvals=2))
     cat.append(G.shape_numeric(8, False, None, wrap='[{}]', typ='indirect_numeric'))
     cat.append(G.shape_numeric(12, True, 'little', wrap='[{}]', typ='indirect_numeric', code=(2, 3)))
     cat.append(G.shape_numeric(16, True, None, wrap='[[{}]]', typ='deferred_numeric', code=(1, 2)))
